@@ -35,6 +35,16 @@ CHECKS = {
  'C03': dict(sec='2/C03', tech='complete domains of every exposed component pair (engine D) + enumerated key/block/tweak families (engine P); purely differential oracle f_inv(f(x)) == x == f(f_inv(x))',
              text='dec(enc(B))==B and enc(dec(B))==B with exact block length over the same key/block/tweak families as C02 for all 9 cipher configurations, and every exposed inverse pair (AES Sbox, ShiftRows, MixColumns; DES IP; Serpent S-boxes, IP/FP, L; rol/ror for every width<=10/12, amount and value; Salsa/ChaCha index maps) on its complete or stated domain. No reference model is involved.',
              note='Trusted: nothing but the harness. MixColumns is exhausted on single- and two-active-byte states (it is linear), the linear layers on the single-bit family (linear) plus patterns.'),
+
+ 'C05': dict(sec='2/C05', tech='exhaustive enumeration of mode x padding x cipher x message length x IV/counter alphabets (engine P) against SP 800-38A written generically over the same block function and the C09 padding specification',
+             text='ECB/CBC under 5 paddings, CTR with byte and object counters (counter halves at 0,1,2^h-2,2^h-1 and a byte-distinct value) and both CTS modes are run over a stub block cipher of 8 block sizes with every length 0..4 blocks+1, and over all 9 real cipher configurations; outputs equal the generic SP 800-38A model byte for byte, every ciphertext is decrypted by a fresh equally configured object, AES vectors of SP 800-38A appendix F are replayed.',
+             note='Trusted: mc/checks/c05.py sp800_* (10 lines) and mc/refs/padspec.py; the block function itself is taken from the object under test (cipher correctness is C02). CTS variant is not fixed by the statement: length and round trip only.'),
+ 'C06': dict(sec='2/C06', tech='exhaustive enumeration of cipher x key size x rounds x length alphabets and single-bit key/nonce families (engine P); preset block counters through the guarded hook; explicit-state BFS over RC4 call histories with (S,i,j) as state (engine H); reference stream ciphers bound to spec/OpenSSL vectors',
+             text='Salsa20 and ChaCha for both key sizes, every even round count 2..20, 11 lengths around the 64-byte block boundaries (enc, length, dec, prefix property for every ordered pair), single-bit key and nonce families, the Salsa20 core on the 512-bit single-bit family; keystream started at blocks around 2^32, 2^33, 2^48 and 2^64-2 through the hook; RC4 for every key length 1..256, and every sequence of up to 3 enc/keystream/dec calls on one object compared with the reference stream and state.',
+             note='Trusted: mc/refs/stream.py (validated each run against spec examples, RFC 6229 and OpenSSL ChaCha20/RC4 keystreams incl. a counter crossing 2^32). Hook BDCHT_CRYSP_VERIF (commit 942588d, add-only).'),
+ 'C18': dict(sec='2/C18', tech='enumeration of generated table networks (one program per key of an enumerated key family) each validated on an enumerated block family against reference DES (engine P)',
+             text='For 37 (thorough 106) keys - single-bit keys incl. parity bits, weak and semi-weak keys, parity-only variants, patterns - the tables are generated by the real code, checked structurally (16x12 total byte maps, M1/M2/M3 index ranges, key independence and repeatability) and evaluated through WhiteDES.enc on the single-bit block family and patterns against reference DES and the library DES.',
+             note='Trusted: reference DES bound to OpenSSL. Keys and blocks are families, not all 2^64.'),
 }
 
 PENDING = {}
